@@ -4,7 +4,8 @@ import ast
 import z3
 
 from . import npmodel, frames
-from .vals import N, Arr, Val, ctx, val_ite, n_fresh, n_round, n_floor, n_abs, n_minimum, n_maximum, arr_forall, arr_exists, _real
+from .vals import arr_fresh
+from .vals import N, Arr, Val, ctx, val_ite, n_fresh, n_round, n_floor, n_abs, n_minimum, n_maximum, arr_forall, arr_exists, _real, n_ite
 from .symexec import State, Exit, SpecCtx, is_heap, ATTR_CLASS, Undecided, exc_matches
 
 # in-repo helpers that are inlined (their bodies are executed at the call site)
@@ -154,6 +155,8 @@ def call(eng, e, st):
                 st.env[lkey] = Val(ref=base.ref, py=base.py, poly=ctx().fresh("lst"))
             eng.havoc_prefix(st, base.ref)
             return Val.fresh("mut")
+        if meth in EXTERNAL_METHOD_MODELS:
+            return EXTERNAL_METHOD_MODELS[meth](eng, base, args, kw, st, e)
         if meth in PURE_METHODS:
             ctx().note("opaque-call", eng.where(e), "." + meth)
             return Val.fresh("m_" + meth)
@@ -384,6 +387,9 @@ def call_random(eng, meth, args, kw, st, e):
 
 def call_builtin(eng, nm, args, kw, st, e):
     c = ctx()
+    if nm == "len" and not args:
+        npmodel.raise_here(eng, st, "TypeError", e)  # len() without argument
+        return Val.fresh("len")
     if nm == "len":
         v = args[0]
         a = v.get_arr() if (v.arr is not None or v.poly) else None
@@ -491,7 +497,58 @@ def call_builtin(eng, nm, args, kw, st, e):
 # ---------------------------------------------------------------------------
 # repository callees
 # ---------------------------------------------------------------------------
+def stub_history_record(eng, fi, self_val, args, kw, st, e):
+    """ASSUMED contract of IterationHistory.record(key, value, iteration) for a literal key (conformance of the real
+    container code is checked by the bounded reference-model test replay/history_model.py):
+    iteration < 0 raises ValueError; otherwise the array stored under `key` has length max(len, iteration+1),
+    element `iteration` is a copy of `value`, every other element is unchanged, no other key changes."""
+    b = bind_params(eng, fi.params, fi.defaults, self_val, args, kw, st, e, True)
+    key, value, it = b["key"], b["value"], b["iteration"]
+    if self_val.ref is None or key.py is None or key.py[0] != "str":
+        if self_val.ref is not None:
+            eng.havoc_prefix(st, self_val.ref)
+        return Val.of_none()
+    path = self_val.ref + "[" + repr(key.py[1]) + "]"
+    itv = eng.as_int(it)
+    neg = z3.simplify(itv < 0)
+    if not z3.is_false(neg):
+        xs = st.copy()
+        xs.pc = z3.And(st.pc, neg)
+        ex = Exit("raise", xs, exc="ValueError", where=eng.where(e))
+        ex.tag = "call[record]"
+        eng.push_exit(ex)
+        st.pc = z3.And(st.pc, z3.Not(neg))
+    cur = eng.lookup(st, path)
+    a = cur.get_arr()
+    va = value.get_arr()
+    if a is None:
+        eng.havoc_path(st, path)
+        return Val.of_none()
+    rows = a.shape[0]
+    if cur.none is not None:
+        rows = z3.If(cur.none, z3.IntVal(0), rows)
+    nrows = z3.simplify(z3.If(itv + 1 > rows, itv + 1, rows))
+    if a.ndim == 2 and va is not None and va.ndim >= 1:
+        vf = va if va.ndim == 1 else npmodel.flatten(va)
+        r = Arr(2, (nrows, a.shape[1]), lambda i, j: n_ite(i == itv, vf.elem(j), a.elem(i, j)), "num")
+        r.rowf = lambda i: z3.If(i == itv, vf.row(None), a.row(i))
+        st.env[path] = Val(arr=r, ref=path)
+    elif a.ndim == 1 and (value.num is not None or value.poly is not None or va is not None):
+        n = value.get_num()
+        r = Arr(1, (nrows,), lambda i: n_ite(i == itv, n, a.elem(i)), "num")
+        st.env[path] = Val(arr=r, ref=path)
+    else:
+        eng.havoc_path(st, path)
+    return Val.of_none()
+
+
+STUBS = {"pybads.utils.iteration_history.IterationHistory.record": stub_history_record}
+
+
 def call_repo(eng, fi, self_val, args, kw, st, e):
+    if fi.qual in STUBS and fi.qual not in eng.registry:
+        eng.assumed_contracts.add(fi.qual)
+        return STUBS[fi.qual](eng, fi, self_val, args, kw, st, e)
     c = eng.registry.get(fi.qual)
     is_method = fi.cls is not None and fi.params and fi.params[0] in ("self", "cls") and not _is_static(fi)
     if self_val is None and is_method:
@@ -681,7 +738,27 @@ def _erfcinv(eng, args, kw, st, e):
     return Val.of_num(N(r))
 
 
+def _gp_predict(eng, base, args, kw, st, e):
+    """T4 (assumed contract on gpyreg): GP.predict is pure and returns (mu, s2), one row per query row, s2 >= 0."""
+    x = args[0].get_arr() if args else None
+    if x is None or x.ndim != 2:
+        return Val.fresh("predict")
+    c = ctx()
+    mu = arr_fresh(c.fresh("gp_mu"), 2, (x.shape[0], z3.IntVal(1)))
+    s2u = arr_fresh(c.fresh("gp_s2"), 2, (x.shape[0], z3.IntVal(1)))
+    inner = s2u._elem
+
+    def el(i, j):
+        v = inner(i, j)
+        c.add_fact(v.r >= 0, key=("s2pos", str(v.r)))
+        return v
+
+    s2u._elem = el
+    return Val.of_tup([Val.of_arr(mu), Val.of_arr(s2u)])
+
+
 EXTERNAL_MODELS = {"erfcinv": _erfcinv}
+EXTERNAL_METHOD_MODELS = {"predict": _gp_predict}
 
 
 def call_external(eng, name, base, args, kw, st, e):
@@ -771,6 +848,8 @@ def sf_exists(eng, e, st):
 def sf_rows(eng, e, st):
     v = eng.ev(e.args[0], st)
     a = v.get_arr()
+    if a is None and v.is_static_none():
+        return Val.of_num(N(0))
     if a is None:
         raise Undecided("rows() of a non-array in contract")
     return Val.of_num(N(a.shape[0]))
@@ -865,7 +944,11 @@ def _as_pt(eng, v):
 
 
 def sf_row(eng, e, st):
-    a = eng.ev(e.args[0], st).get_arr()
+    v0 = eng.ev(e.args[0], st)
+    a = v0.get_arr()
+    if a is None and v0.is_static_none():
+        # rows of None: the enclosing range is empty; any point will do
+        return Val(py=("pt", z3.Const(ctx().fresh("nopt"), z3.ArraySort(z3.IntSort(), z3.RealSort()))))
     if a is None or a.ndim != 2:
         raise Undecided("row() needs a 2-D array")
     k = eng.as_int(eng.ev(e.args[1], st))
